@@ -40,6 +40,8 @@ def run(ctx):
     ENC = {"ascii": bnp.encodings.BaseEncoding, "DNA": ae.ACGTEncoding, "ACGTn": ae.ACGTnEncoding, "amino": ae.AminoAcidEncoding}
     rng = ctx.rng
     maxops = ctx.pick(4, 8)
+    # a different but compatible encoding for a comparison operand (same letters, other code table)
+    OTHER_ENC = {"DNA": ae.ACGTnEncoding, "ACGTn": ae.ACGTEncoding, "ascii": None, "amino": "ascii"}
 
     def up(ename, s):
         return s if ename == "ascii" else s.upper()
@@ -61,7 +63,7 @@ def run(ctx):
             n = len(model)
             lens = [len(s) for s in model]
             ops = ["row_slice", "row_slice", "row_mask", "row_fancy", "col_slice", "col_reverse", "eq_char", "copy", "ravel", "concat", "tolist", "assign_row", "assign_elem", "neq_char",
-                   "str_equal_ragged", "str_equal_str", "as_string_array", "view_copy_assign", "view_copy_assign"]
+                   "str_equal_ragged", "str_equal_str", "as_string_array", "view_copy_assign", "view_copy_assign", "concat_assign", "eq_ragged_other_enc", "rows_to_array_assign"]
             if n:
                 ops += ["row_int", "row_int", "elem"]
             if n and min(lens) > 0:
@@ -100,7 +102,23 @@ def run(ctx):
                 if not n:
                     raise Skip()
                 i = r.randint(-n, n - 1)
-                return op, {"i": i, "value": "".join(r.choice(alpha) for _ in range(lens[norm_index(i, n)]))}
+                return op, {"i": i, "value": "".join(r.choice(alpha) for _ in range(lens[norm_index(i, n)])), "as": r.choice(["str", "str", "same-encoding", "ascii-array"])}
+            if op == "concat_assign":
+                # concatenate (one side possibly empty), assign INTO the result, then look at the operand: a concatenation is a new array
+                other = ["".join(r.choice(alpha) for _ in range(r.randint(0, 4))) for _ in range(r.choice([0, 0, 1, 2]))]
+                if r.random() < 0.3:
+                    other = [""] * r.randint(1, 2)
+                return op, {"other": other, "first": r.random() < 0.5, "c": r.choice(alpha)}
+            if op == "rows_to_array_assign":
+                # a new ragged array built from a Python list of rows of this one (often a single row), then overwritten: the source keeps its text
+                if not n:
+                    raise Skip()
+                return op, {"rows": [r.randint(-n, n - 1) for _ in range(r.choice([1, 1, 1, 2, 3]))], "c": r.choice(alpha)}
+            if op == "eq_ragged_other_enc":
+                if not n:
+                    raise Skip()
+                other = [(s_ if r.random() < 0.7 else "".join(r.choice(alpha) for _ in range(len(s_)))) for s_ in model]
+                return op, {"other": other}
             if op == "assign_elem":
                 rows = [i for i in range(n) if lens[i] > 0]
                 if not rows:
@@ -132,7 +150,7 @@ def run(ctx):
             return op, {}
         if kind == "flat":
             n = len(model)
-            ops = ["slice", "slice", "mask", "fancy", "reverse", "eq_char", "eq_str", "eq_arr", "copy", "ravel", "concat", "to_string", "assign_slice", "assign_scalar"]
+            ops = ["slice", "slice", "mask", "fancy", "reverse", "eq_char", "eq_str", "eq_arr", "copy", "ravel", "concat", "to_string", "assign_slice", "assign_scalar", "concat_assign", "assign_encoded"]
             if n:
                 ops += ["int", "int"]
             op = r.choice(ops)
@@ -160,6 +178,14 @@ def run(ctx):
                 if n == 0:
                     raise Skip()
                 return op, {"i": r.randint(-n, n - 1), "c": r.choice(alpha)}
+            if op == "concat_assign":
+                return op, {"other": "".join(r.choice(alpha) for _ in range(r.choice([0, 0, 1, 3]))), "first": r.random() < 0.5, "c": r.choice(alpha)}
+            if op == "assign_encoded":
+                if n == 0:
+                    raise Skip()
+                a = r.randint(0, n - 1)
+                b = r.randint(a + 1, n)
+                return op, {"a": a, "b": b, "value": "".join(r.choice(alpha) for _ in range(b - a)), "as": r.choice(["same-encoding", "ascii-array"])}
             return op, {}
         if kind == "matrix":
             n = len(model)
@@ -242,6 +268,17 @@ def run(ctx):
                 sel = p["sel"]
                 view = model[::-1] if sel[0] == "rev" else ([model[i] for i in sel[1]] if sel[0] == "fancy" else model[sel[1]:])
                 return "pylist", [list(view), [U(p["c"]) * len(x) for x in view], list(model)]
+            if op == "concat_assign":
+                o = [U(x) for x in p["other"]]
+                cat = (model + o) if p["first"] else (o + model)
+                flat_len = sum(map(len, cat))
+                done = [U(p["c"]) * len(x) for x in cat]
+                return "pylist", [done, list(model)]
+            if op == "rows_to_array_assign":
+                picked = [model[i] for i in p["rows"]]
+                return "pylist", [[U(p["c"]) * len(x) for x in picked], list(model)]
+            if op == "eq_ragged_other_enc":
+                return "bool", [[x == y for x, y in zip(a, U(b))] for a, b in zip(model, p["other"])]
             if op == "str_equal_ragged":
                 return "bool", [a == U(b) for a, b in zip(model, p["other"])]
             if op == "str_equal_str":
@@ -276,6 +313,11 @@ def run(ctx):
             if op == "assign_scalar":
                 i = norm_index(p["i"], len(model))
                 return "flat", model[:i] + U(p["c"]) + model[i + 1:]
+            if op == "concat_assign":
+                cat = (model + U(p["other"])) if p["first"] else (U(p["other"]) + model)
+                return "pylist", [U(p["c"]) * len(cat), model]
+            if op == "assign_encoded":
+                return "flat", model[:p["a"]] + U(p["value"]) + model[p["b"]:]
         if kind == "matrix":
             if op == "row_int":
                 return "flat", model[p["i"]]
@@ -342,8 +384,28 @@ def run(ctx):
                 return obj.tolist()
             if op == "assign_row":
                 c = obj.copy()
-                c[p["i"]] = p["value"] if p["value"] else mk(p["value"])
+                how = p.get("as", "str")
+                val = p["value"] if (how == "str" and p["value"]) else (bnp.as_encoded_array(p["value"]) if how == "ascii-array" and p["value"] else mk(p["value"]))
+                c[p["i"]] = val
                 return c
+            if op == "concat_assign":
+                other = mk(p["other"]) if p["other"] else obj[:0]
+                res = np.concatenate([obj, other] if p["first"] else [other, obj])
+                res[res != p["c"]] = p["c"]
+                return [text_rows(res) if len(res) else [], text_rows(obj) if len(obj) else []]
+            if op == "rows_to_array_assign":
+                new = bnp.as_encoded_array([obj[i] for i in p["rows"]])
+                if new.size:
+                    new[new != p["c"]] = p["c"]
+                return [text_rows(new) if len(new) else [], text_rows(obj) if len(obj) else []]
+            if op == "eq_ragged_other_enc":
+                # the other operand comes in a different but compatible encoding and as a lazy row selection (reversed twice)
+                oe = OTHER_ENC.get(ename)
+                common = "ACGT" if ename in ("DNA", "ACGTn") else ALPH[ename].upper()
+                if oe is None or any(ch.upper() not in common for x in p["other"] for ch in x):
+                    raise Skip()
+                other = (bnp.as_encoded_array(p["other"][::-1], oe) if oe != "ascii" else bnp.as_encoded_array(p["other"][::-1]))[::-1]
+                return obj == other
             if op == "assign_elem":
                 c = obj.copy()
                 c[p["i"], p["j"]] = p["c"]
@@ -404,6 +466,16 @@ def run(ctx):
             if op == "assign_scalar":
                 c = obj.copy()
                 c[p["i"]] = p["c"]
+                return c
+            if op == "concat_assign":
+                other = mk(p["other"])
+                res = np.concatenate([obj, other] if p["first"] else [other, obj])
+                if len(res):
+                    res[:] = mk(p["c"] * len(res))
+                return [res.to_string(), obj.to_string()]
+            if op == "assign_encoded":
+                c = obj.copy()
+                c[p["a"]:p["b"]] = bnp.as_encoded_array(p["value"]) if p["as"] == "ascii-array" else mk(p["value"])
                 return c
         if kind == "matrix":
             if op == "row_int":
